@@ -41,7 +41,7 @@ impl BlockDecryptMut for MDec { fn decrypt_with_backend_mut(&mut self, f: impl B
 
 // ---- scripted transport --------------------------------------------------------------------------------
 pub const CAP: usize = 8;
-pub const STEPS: usize = 4;
+pub const STEPS: usize = 4; // script capacity; harnesses use the first `steps` entries
 /// write side: per poll_write call `wscript[i]`: 255 = Pending, otherwise accept min(k, len) bytes.
 /// read side: per poll_read call `rscript[i]`: 255 = Pending, otherwise deliver min(k, available, remaining) bytes.
 pub struct Wire {
@@ -92,10 +92,7 @@ mod proofs {
     }
 
     /// every acceptance schedule of up to STEPS poll_write calls on NB plaintext bytes, caller retrying the rest like write_all
-    const NB: usize = 3;
-    #[kani::proof]
-    #[kani::unwind(10)]
-    fn write_any_schedule() {
+    fn write_schedule<const NB: usize>(steps: usize) {
         let s0: u16 = kani::any();
         let plain: [u8; NB] = kani::any();
         let wscript: [u8; STEPS] = kani::any();
@@ -104,7 +101,7 @@ mod proofs {
         let mut partial = false;
         let mut pending = false;
         let mut round = 0;
-        while round < STEPS && off < NB {
+        while round < steps && off < NB {
             let r = cx_run(|cx| Pin::new(&mut cs).poll_write(cx, &plain[off..]));
             match r {
                 Poll::Ready(Ok(n)) => { assert!(n <= NB - off, "poll_write never reports more than it was given"); if n < NB - off { partial = true; } off += n; }
@@ -125,8 +122,15 @@ mod proofs {
         kani::cover!(off == NB && partial && pending, "all bytes written after a partial accept and a Pending");
         kani::cover!(off == NB && !partial && !pending, "single full write");
     }
+    #[kani::proof]
+    #[kani::unwind(10)]
+    fn write_any_schedule_2x3() { write_schedule::<2>(3) }
+    #[kani::proof]
+    #[kani::unwind(10)]
+    fn write_any_schedule_3x4() { write_schedule::<3>(4) }
 
     /// every chunking of NB ciphertext bytes into up to STEPS poll_read calls, reader buffer already holding 0 or 2 bytes
+    const NB: usize = 3;
     #[kani::proof]
     #[kani::unwind(10)]
     fn read_any_schedule() {
